@@ -85,7 +85,7 @@ def binary(model, R):
             row = {'a': a, 'b': b, 'A': 0, 'B': 0, bitalg.OUTSIDE: 0}
             if term(row) != spec(row):
                 diff = row
-        R.check(diff is None, 'BOUNDS', func, arg, f'{name}: closure argument is {op_text}', op_text, term.text,
+        R.decided(diff is None, 'BOUNDS', func, arg, f'{name}: closure argument is {op_text}', op_text, term.text,
                 extra={'differs_for_object_in': {'x': diff['a'], 'y': diff['b']}} if diff else None)
         if closure is None:
             if name == 'join':
